@@ -408,5 +408,12 @@ pub fn host_premise_pool() -> Vec<String> {
             hosts.push(format!("XN--{}-1ga", f));
         }
     }
+    // a capital letter in every position class of an otherwise plain lower-case label (first, inner, last byte;
+    // first / last label), digits and hyphens around it
+    for c in ['A', 'E', 'Z'] {
+        for h in ["{}xample.com", "ex{}mple.com", "exampl{}.com", "example.co{}", "www.exampl{}", "a-{}", "a1{}", "{}", "a{}", "x.{}.y", "exampl{}.com."] {
+            hosts.push(h.replace("{}", &c.to_string()));
+        }
+    }
     hosts
 }
